@@ -64,6 +64,7 @@ def check(ctx):
     ctx.rule("R3", "task-key pairing: every add_task key has a matching cancel_key_tasks(<same literal>) reachable from reset / context exit / the function that started it; gather cancels and awaits every task")
     ctx.rule("R4", "cancellation is never swallowed (handlers catching CancelledError re-raise on all paths) nor deferred (no timed wait inside a finally of a task coroutine)")
     ctx.rule("R5", "observers detached: spa.disconnect unwatches itself and drops accessors; facade.disconnect unwatches every automation device; reset calls both")
+    ctx.rule("R7", "reset survives cancelling its own task: no suspension point after cancel_key_tasks(<ping-loop key>) in spa.disconnect, nor in async_reset after the spa disconnect")
     ctx.rule("R6", "bounded growth: _tidy rebinds the task list to the not-done subset; reset drops facade/spa/descriptors")
 
     # ---- R1 / R2 -----------------------------------------------------------
@@ -307,6 +308,8 @@ def check(ctx):
         ctx.ob("R5", f"GeckoAsyncSpaMan.async_reset::disconnects-{what}", ok,
                f"async_reset does not disconnect the {what} whenever one exists", reset.loc)
 
+    reset_survives_self_cancel(ctx, repo, "R7")
+
     # ---- R6 bounded growth --------------------------------------------------
     tidy = repo.method("AsyncTasks", "_tidy")
     ok = False
@@ -325,6 +328,36 @@ def check(ctx):
         ctx.ob("R6", f"GeckoAsyncSpaMan.async_reset::drops-{attr}", bool(ns), f"async_reset keeps self.{attr}", reset.loc)
     ctx.assume("`except Exception` does not catch asyncio.CancelledError (Python >= 3.8)")
     ctx.assume("task.cancel() delivers one CancelledError at the current await; a later await in a finally block runs to completion")
+
+
+def reset_survives_self_cancel(ctx, repo, rule):
+    """The automatic reset runs INSIDE the ping-loop task (ping received in an error state ->
+    _handle_event -> async_reset -> spa.disconnect), i.e. inside a task that
+    cancel_key_tasks(<its key>) cancels.  The CancelledError is delivered at the next await,
+    so nothing may suspend between that cancel and the end of the reset, or the reset is
+    abandoned half-way (endpoint left open, manager stuck, nothing left to reconnect)."""
+    sd = repo.method("GeckoAsyncSpa", "disconnect")
+    gsd = cfg_of(sd)
+    reset = repo.method("GeckoAsyncSpaMan", "async_reset")
+    gr = cfg_of(reset)
+    con = repo.method("GeckoAsyncSpa", "_connect")
+    ping_key = None
+    for n in walk_no_nested(con.node):
+        if isinstance(n, ast.Call) and call_name(n) == "add_task" and n.args and isinstance(n.args[0], ast.Call) and call_name(n.args[0]) == "_ping_loop" and len(n.args) > 2:
+            ping_key = repo.try_fold(n.args[2])
+    ctx.ob(rule, "ping-loop::task-key", isinstance(ping_key, str), "cannot determine the task key of the ping loop", con.loc)
+    selfc = [n for n, c in gsd.nodes_calling("cancel_key_tasks") if c.args and repo.try_fold(c.args[0]) == ping_key]
+    for cn in selfc:
+        late = sorted((x for x in gsd.reach_from(cn, labels_skip=("exc",)) if x.suspends), key=lambda x: x.lineno)
+        ctx.ob(rule, "GeckoAsyncSpa.disconnect::no-await-after-self-cancel", not late,
+               f"GeckoAsyncSpa.disconnect suspends ({[f'L{x.lineno}: {x.text()}' for x in late]}) after cancel_key_tasks({ping_key!r}): when the reset runs inside the ping-loop task "
+               f"(self-healing path) the CancelledError lands there and the rest of the disconnect/reset is skipped", sd.loc,
+               sample={"rule": rule, "cancel_line": cn.lineno, "suspensions_after": [x.lineno for x in late]})
+    dcalls = [n for n, c in gr.nodes_calling("disconnect") if receiver(c) == "self._spa"]
+    for dn in dcalls:
+        late = sorted((x for x in gr.reach_from(dn, labels_skip=("exc",)) if x.suspends), key=lambda x: x.lineno)
+        ctx.ob(rule, "GeckoAsyncSpaMan.async_reset::no-await-after-spa-disconnect", not late,
+               f"async_reset suspends ({[f'L{x.lineno}' for x in late]}) after the spa disconnect that may have cancelled the running task: the reset would not reach IDLE", reset.loc)
 
 
 def _escapes(g, start, closers):
